@@ -115,6 +115,11 @@ func (l *Layouts) compute(t types.Type) []Slot {
 	case *types.Interface:
 		return []Slot{{K: KI, Role: RTid}, {K: KI, Role: RBlk}, {K: KI, Role: ROff}}
 	case *types.TypeParam:
+		// a type parameter whose constraint has methods is laid out like an interface value (dynamic
+		// type id + payload), so that method calls on it go through the interface contracts
+		if ci, ok := u.Constraint().Underlying().(*types.Interface); ok && ci.NumMethods() > 0 {
+			return []Slot{{K: KI, Role: RTid}, {K: KI, Role: RBlk}, {K: KI, Role: ROff}}
+		}
 		return []Slot{{K: KI, Role: ROpaq}}
 	case *types.Struct:
 		var out []Slot
